@@ -9,6 +9,30 @@ EXTRA = ["[1 c : [2 d] e] f", "[1 a : [2 b : c] [1 d : [2 e]] g] a", "[2 [1 c : 
          "[ c d ]", "[3 c : ]", ": c ] d", "[2 [2 c : d] : e] f", "{ }4 c", "{c}0 d", "Sub{ Sub{ c } d } e", "'c' 'd'0 'e',0 'f',,0 g", "n60,4,0,0 n61,,100,127,-5",
          "r-4 c r4 d r-1 e", "l0 c d l-4 e", "o11 c o-1 d", "v200 c v-5 d", "q0 c q200 d q100 e", "t50 c t-50 d", "c,0,0 d,100,127,5,9 e,,,,0", "TR(1) 'c&e' d", "c4& 'ce' d"]
 
+def g_upper(rng):
+    r = rng.randint
+    return rng.choice([
+        "KeyShift(%d)" % r(-13, 13), "Key(%d)" % r(-5, 5), "TrackKey(%d)" % r(-13, 13), "TrackKey=%d" % r(-3, 3),
+        "KeyFlag%s(%s)" % (rng.choice("+-"), "".join(rng.sample("cdefgab", r(1, 4)))), "KeyFlag=(%s)" % ",".join(str(r(-1, 1)) for _ in range(7)),
+        "UseKeyShift(%d)" % r(0, 1), "Slur(%d)" % r(-1, 4), "Slur(%d,%d)" % (r(0, 3), rng.choice([0, 0, 10, 24, 48, 96, -5])),
+        "@%d" % r(0, 130), "@%d,%d" % (r(1, 128), r(0, 127)), "@%d,%d,%d" % (r(1, 128), r(0, 127), r(0, 127)), "Voice(%d)" % r(1, 128),
+        "y%d,%d" % (r(0, 127), r(-5, 140)), "%s(%d)" % (rng.choice(["V", "EP", "P", "M", "PT", "REV", "CHO"]), r(-5, 140)),
+        "Tempo(%d)" % rng.choice([5, 10, 60, 120, 299, 300, 301, r(1, 400)]), "TimeSignature(%d,%d)" % (r(1, 70), rng.choice([2, 4, 8, 16, 3, 1, 32])), "TimeSig(3)",
+        "TIME(%d:%d:%d)" % (r(0, 5), r(0, 6), r(-10, 200)), "TIME(%d)" % r(-10, 2000), "Time(%d:%d:%d)" % (r(1, 3), r(1, 4), r(0, 95)),
+        "MeasureShift(%d)" % r(-2, 3), "PlayFrom(%d:%d:%d)" % (r(1, 4), r(1, 4), r(0, 95)), "PlayFrom(%d)" % r(0, 1000),
+        "PB(%d)" % r(-9000, 9000), "p%d" % r(-5, 140), "vAdd(%d)" % r(-3, 20), "qAdd(%d)" % r(-3, 20),
+        "@%d,0,0" % r(1, 128), "@%d,0" % r(1, 128), "TimeBase(%d)" % rng.choice([48, 96, 100, 120, 480]),
+        "Slur(%d%s) %s" % (r(0, 3), rng.choice(["", "", ",0", ",10", ",48"]), "&".join(rng.choice("cdefgab") + rng.choice(["", "8", "4", "+"]) for _ in range(r(2, 5)))),
+        "TimeBase(%d) TimeSignature(%d,%d) TIME(%d:%d:%d)" % (rng.choice([100, 120, 90, 96, 50]), r(2, 12), rng.choice([2, 4, 8, 16]), r(1, 6), r(1, 6), r(0, 40)),
+        "TR(%d)" % r(0, 6), "TR=%d" % r(0, 4), "CH(%d)" % r(-1, 18), "TrackSync", "Track(%d)" % r(1, 3), "Channel(%d)" % r(1, 16)])
+
+def g_text2(rng):
+    out = []
+    for _ in range(rng.randrange(2, 14)):
+        out.append(g_upper(rng) if rng.random() < 0.45 else lexstream.g_token(rng, 2))
+        out.append(rng.choice([" ", " ", " ", "\n", " | ", "; "]))
+    return "".join(out)
+
 def exec_stream(tier, rng, P, only=None, cases=None):
     big = tier == "thorough"
     def mk():
@@ -16,19 +40,20 @@ def exec_stream(tier, rng, P, only=None, cases=None):
         n = 30000 if big else 3000
         texts = list(EXTRA) + list(lexstream.FIXED)
         for i in range(n): texts.append(lexstream.g_text(rng))
+        for i in range(n): texts.append(g_text2(rng))
         for i in range(n // 2):
             # printed programs of the core-language generator: tracks, channels, chords, tuplets, Sub, loops (others are skipped as unsupported)
             texts.append(mml.pr(mml.gen_cmds(rng, 2, rng.randrange(1, 9), top=(rng.random() < 0.5))))
         for i, t in enumerate(texts):
             cs.append(dict(req="lexrun " + hx(t), src=t, show=repr(t)[:300], key="e%d" % i))
         return cs
-    def model(c, st, f): return ["exec " + f["toks"]] if st == "ok" else []
+    def model(c, st, f): return ["exec %s %s" % (f["toks"], f["tb"])] if st == "ok" else []
     def judge(c, impl, m):
         st, f = impl
         if st != "ok": return None       # crashes and hangs are C07's subject
         if not m or "unsupported" in m[0]: return None
         mf = dict(p.split("=", 1) for p in m[0].split(" ")[1:] if "=" in p)
-        for k in ("state", "cur", "pf", "seed"):
+        for k in ("state", "cur", "pf", "seed", "song", "ties"):
             if mf.get(k) != f.get(k): return ("mismatch", "%s differs: real %s model %s" % (k, str(f.get(k))[:160], str(mf.get(k))[:160]))
         if mf.get("tracks") != f.get("tracks"):
             ta = f["tracks"].split(";"); tb_ = mf.get("tracks", "").split(";")
@@ -46,10 +71,10 @@ def exec_stream(tier, rng, P, only=None, cases=None):
     def nt(c, impl, m):
         return m[0][:300] if m and "tracks=" in m[0] and impl[0] == "ok" else None
     return Stream("exec", cases if (cases and only == "exec") else mk(), model, judge, nt,
-                  "exec: raw texts (the lexer stream's generator, printed core programs with tracks/channels/TrackSync, fixed corner cases: loop counts 0/1, "
+                  "exec: raw texts (the lexer stream's generator; the same mixed with upper-case commands with constant arguments — KeyShift/Key/TrackKey/KeyFlag/UseKeyShift, Slur(mode[,value]), @/Voice with banks, y and named controllers, Tempo, TimeSignature, TIME, MeasureShift, PlayFrom, PB/p, vAdd/qAdd, TR/CH/TrackSync; printed core programs; fixed corner cases: loop counts 0/1, "
                   "stray ':' and ']', empty tuplets, chords with rests, ties in and around chords/Sub, octave-once, Random settings, negative rests, out-of-range "
                   "values) are lexed and run by the real code; Model.Exec runs on the *real* token list; events of every track (glide samples +-1), final "
-                  "track states (pointer, channel, l, o, v, q, t, key), current track, play-from point and random seed must be identical; token lists "
+                  "track states (pointer, channel, l, o, v, q, t, key; tie mode/value/bend range), song state (key shift, key flags, vAdd, qAdd, measure shift, time signature, tempo), current track, play-from point and random seed must be identical; token lists "
                   "outside the modelled subset are skipped. non-trivial = distinct event lists", timeout_case=20.0)
 
 
